@@ -65,10 +65,14 @@ type C14Payload struct {
 	// LateGroup: this top-level group is added (AddGroup) only after the same
 	// IniParser has read a first document that names its section; the judged read
 	// comes after that and sees the complete declaration.
-	LateGroup  string `json:"late_group,omitempty"`
-	Stores     []Op   `json:"stores,omitempty"`
-	IniOpts    uint   `json:"ini_opts,omitempty"`
-	CrashAfter int    `json:"crash_after,omitempty"`
+	LateGroup string `json:"late_group,omitempty"`
+	// PriorFail (ParseFile only): the same IniParser has been asked before to read
+	// the same path, which then held a document that is rejected while it is applied
+	// (an unknown section); the file has been corrected since.
+	PriorFail  bool `json:"prior_fail,omitempty"`
+	Stores     []Op `json:"stores,omitempty"`
+	IniOpts    uint `json:"ini_opts,omitempty"`
+	CrashAfter int  `json:"crash_after,omitempty"`
 }
 
 type propC14 struct{}
@@ -80,7 +84,7 @@ func c14Cfg() *DeclCfg {
 		Kinds: []string{"bool", "int", "int16", "uint", "uint8", "float64", "string", "string", "duration", "[]int", "[]string", "map[string]int", "map[string]string",
 			"map[int]string", "*int", "*string", "um", "func(string)", "func()", "[]bool", "vv", "level", "ulist"},
 		MinOpts: 1, MaxOpts: 4, MaxGroups: 2, MaxSub: 1, MaxCmds: 2, MaxDepth: 2, Exec: true,
-		Hidden: true, NoIni: true, IniName: true, Namespaces: true, Choices: true, Base: false, CapCmds: true, DupFields: true,
+		Hidden: true, NoIni: true, IniName: true, Namespaces: true, Choices: true, Base: false, CapCmds: true, DupFields: true, MultiByte: true,
 		ParserOpts: []uint{0, optHelpFlag, optIgnoreUnknown, optIgnoreUnknown | optHelpFlag, optHelpFlag | optPassDoubleDash | optPrintErrors},
 	}
 }
@@ -501,6 +505,10 @@ func genC14Fault(r *Rng, d *DeclSpec, p *C14Payload) *C14Fault {
 				}
 			} else if !isFuncKind(e.Kind) && (strings.Contains(bk, "int") || strings.Contains(bk, "float") || bk == "bool" || bk == "duration") {
 				bad := r.Pick([]string{"notanumber", "12x", "--", "1.5.2", "0x", "∞"})
+				// a well-formed number that the field's type cannot hold
+				if oor := map[string]string{"uint8": "300", "int16": "40000", "uint": "-1", "int": "9223372036854775808"}[bk]; oor != "" && !isMapKind(e.Kind) && r.Chance(1, 2) {
+					bad = oor
+				}
 				if isMapKind(e.Kind) {
 					if mk := mapKeyKind(e.Kind); strings.Contains(mk, "int") && r.Bool() {
 						bad = bad + ":1"
@@ -619,7 +627,10 @@ func (propC14) Gen(r *Rng, idx int, tier string) *Scenario {
 	if cr.Chance(1, 6) && !p.LateIgnore {
 		p.PriorLines = cr.Range(1, 9)
 	}
-	if lr := r.Fork("lategroup"); lr.Chance(1, 6) && !p.LateIgnore && p.PriorLines == 0 && len(sc.Decl.Groups) > 0 {
+	if fr := r.Fork("priorfail"); fr.Chance(1, 5) && p.ViaFile && !p.LateIgnore && p.PriorLines == 0 {
+		p.PriorFail = true
+	}
+	if lr := r.Fork("lategroup"); lr.Chance(1, 6) && !p.LateIgnore && p.PriorLines == 0 && len(sc.Decl.Groups) > 0 && !p.PriorFail {
 		p.LateGroup = sc.Decl.Groups[lr.Intn(len(sc.Decl.Groups))].Name
 	}
 	if cr.Chance(1, 3) && len(text) > 0 {
@@ -821,6 +832,14 @@ func c14Read(sc *Scenario, data string, chunks []simrt.ReadStep, rest int, viaFi
 		d2.LateGroups = []string{sc.C14.LateGroup}
 		s2.Decl = &d2
 		s2.Ops = []Op{{Kind: "iniread", Data: BStr("[" + sc.C14.LateGroup + "]\nnot-yet = 1\n")}, {Kind: "addgroup"}, op}
+	}
+	if sc.C14 != nil && sc.C14.PriorFail && viaFile && sc.C14.PriorLines == 0 && !sc.C14.LateIgnore && sc.C14.LateGroup == "" {
+		// first the path holds a document that is rejected, then (Data set on a file
+		// read: the file is rewritten first) the document to be judged
+		bad := Op{Kind: "iniread", File: "in.ini", AsDefaults: op.AsDefaults}
+		s2.World.Files = map[string]BStr{"in.ini": BStr("[No Such Section ZZ]\nkey = 1\nk2 = notanumber\n")}
+		op.Data, op.Rewrite = BStr(data), true
+		s2.Ops = []Op{bad, op}
 	}
 	if sc.C14 != nil && sc.C14.LateIgnore {
 		d2 := *sc.Decl
@@ -1193,6 +1212,13 @@ func (propC14) Reductions(sc *Scenario) []func(*Scenario) bool {
 				return false
 			}
 			s.C14.LateGroup = ""
+			return true
+		},
+		func(s *Scenario) bool {
+			if !s.C14.PriorFail {
+				return false
+			}
+			s.C14.PriorFail = false
 			return true
 		},
 		func(s *Scenario) bool { s.C14.TailNoise = nil; return true },
